@@ -54,9 +54,17 @@ def run(ctx):
         rho = O.dense_state(act, n) if n <= 4 and rng.random() < 0.3 else None
         ent = {}
         for reg in regions:
-            how = rng.choice(['list', 'tuple', 'mask', 'array', 'list-shuffled', 'list-negative'])
+            how = rng.choice(['list', 'tuple', 'mask', 'array', 'list-shuffled', 'list-negative', 'list-repeats'])
             idxs = list(reg)
-            if how == 'list-shuffled':        # the order in which the qubits of a region are listed is immaterial
+            if how == 'list-repeats' and not reg:
+                how = 'list'
+            if how == 'list-repeats':         # a region is a set of qubits: repeats change nothing, whatever the length of the list (N included)
+                while len(idxs) < (n if rng.random() < 0.6 else len(reg) + 1):
+                    idxs.append(rng.choice(reg))
+                rng.shuffle(idxs); arg = list(idxs)
+            if how == 'list-repeats':
+                pass
+            elif how == 'list-shuffled':      # the order in which the qubits of a region are listed is immaterial
                 rng.shuffle(idxs); arg = list(idxs)
             elif how == 'list-negative':      # qubits may be counted from the end
                 idxs = [q - n if rng.random() < 0.6 else q for q in idxs]; rng.shuffle(idxs); arg = list(idxs)
@@ -91,6 +99,24 @@ def run(ctx):
                 ctx.count('dense')
                 if abs(vn - e) > 1e-6:
                     ctx.fail('StabilizerState.entropy', 'entropy %d, dense von Neumann entropy %.6f' % (e, vn), dict(rows=rows, r=r, region=reg))
+        # a qubit the register does not have is rejected (same outcome as the model: the assertion of utils.mask / an IndexError)
+        for _k in range(2):
+            L_ = rng.choice([1, 2, n]) if n > 1 else 1
+            bad_idx = [rng.randrange(n) for _i in range(L_ - 1)] + [rng.choice([n, n + 2, -n - 1])]
+            rng.shuffle(bad_idx)
+            try:
+                got_ = 'ok %d' % int(st.entropy(list(bad_idx)))
+            except AssertionError:
+                got_ = 'err AssertionError'
+            except IndexError:
+                got_ = 'err IndexError'
+            except Exception as ex:
+                got_ = impl.errname(ex)
+            ctx.q('entropyidx(out of range)', 'entropyidx %d %s %s' % (r, H.erows_ops(rows), E.eints(bad_idx)), got_,
+                  lambda s_: s_ if s_.startswith('ok ') else {'err assertion': 'err AssertionError', 'err index': 'err IndexError'}.get(s_, s_))
+            ctx.case(('entropy-out-of-range', tuple(rows), r, tuple(bad_idx)), True)
+            if got_.startswith('ok'):
+                ctx.fail('StabilizerState.entropy', 'a region naming qubit(s) %s of a %d-qubit state is accepted (entropy %s) instead of rejected' % (bad_idx, n, got_[3:]), dict(rows=rows, r=r, region=bad_idx))
         if ent.get(()) not in (None, 0):
             ctx.fail('StabilizerState.entropy', 'empty region has entropy %s' % ent[()], dict(rows=rows, r=r))
         full = tuple(range(n))
